@@ -630,3 +630,6 @@ def known_match(case, failure, entry):
     if entry["key"] == "C10-gr-attr-recount":
         return failure.get("kind", "").startswith("attribute") and failure.get("obj") in ("grfile", "ri")
     return False
+
+
+RULE += (" " + 'Also generated: the valid range stored as the valid_max/valid_min attribute pair (read through SDgetrange), re-setting a dimension scale with the other signedness of the same width (SDdiminfo must report the type last set), SDgetnumvars_byname/SDnametoindices.')
